@@ -1,0 +1,15 @@
+//go:build verif
+
+package mcp
+
+// Exports for the deterministic-simulation harness (/verif): the config-file
+// replacement primitives of the MCP server, so that every crash point inside
+// them can be enumerated over the simulated file system (verifos).
+
+func VerifWriteFileAtomic(path string, data []byte) error { return writeFileAtomic(path, data) }
+
+func VerifRollbackConfigFile(path string, existed bool, previous []byte) error {
+	return rollbackConfigFile(path, existed, previous)
+}
+
+func VerifReadExistingFile(path string) ([]byte, bool, error) { return readExistingFile(path) }
